@@ -19,8 +19,8 @@ from vt.oracles import constraint_semantics as CS
 
 ID = 'C08'
 TIERS = {
-    'quick': dict(shards=16, cases=45, watchdog_s=900),
-    'thorough': dict(shards=16, cases=1800, watchdog_s=7000),
+    'quick': dict(shards=16, cases=300, watchdog_s=900),
+    'thorough': dict(shards=16, cases=12000, watchdog_s=7000),
 }
 RULE = ('case = SQLite table (1-4 columns of integer/bigint/real/double/text/varchar/boolean/datetime, 0-30 rows, any '
         'null pattern, text with quotes/backslashes/percent/unicode/empty strings, quoted column names) x rex off/on; '
